@@ -101,5 +101,6 @@ pub fn gen_profile(s: &mut Src, nla: bool) -> ServerProfile {
         activations: (0..rounds).map(|_| gen_demand_active(s)).collect(),
         auto: true,
         post_activation: Vec::new(),
+        pack_deactivate: s.pick(&[0u8, 0, 0, 1, 2, 3]),
     }
 }
